@@ -1,7 +1,7 @@
 """
 C14 - a failed worker fails the run; no partial result passes as success.
-Fault enumeration: every worker of every parallel stage x {SIGKILL,
-os._exit(3), raise} x {before, mid-way, after its work}, delivered through
+Fault enumeration: every worker of every parallel stage x {SIGKILL, SIGTERM,
+os._exit(3), sys.exit(7), raise} x {before, mid-way, after its work}, delivered through
 the multiprocessing.Process proxy on small inputs; the monitor checks that
 the call raises in the parent, that the fault really was delivered, and what
 is left on disk.
@@ -27,7 +27,7 @@ RULE = ('fault space = stage in {mapping via run_mapping (per-chunk files), '
         '(transposition workers), p-value mask, markers from the mask, '
         'query-marker selection, parallel transposition} x every worker the '
         'stage dispatches on a small input (counted by a fault-free dry run) '
-        'x {kill, exit, raise} x {before, mid, after}.  Thorough = the full '
+        'x {SIGKILL, SIGTERM, os._exit(3), sys.exit(7), raise} x {before, mid, after}.  Thorough = the full '
         'product; quick = every (stage, mode, point) on a rotating worker.  '
         'A case is non-trivial when the victim\'s exit code shows the fault '
         'was delivered; distinct = distinct (stage, worker, mode, point)')
@@ -37,7 +37,7 @@ ASSUMPTIONS = [
     'a watchdog bounds every case; its firing is inconclusive',
 ]
 
-MODES = ['kill', 'exit', 'raise']
+MODES = ['kill', 'term', 'exit', 'sysexit', 'raise']
 POINTS = ['before', 'mid', 'after']
 
 STAGES = {
